@@ -1,24 +1,32 @@
-(* C20_proofs.v -- proofs about GuiLoop.v: the repaired receive loop never spins, stops once
-   the session has ended, forwards exactly what it received, and drains the TLS buffer; the
-   loop as found does none of these (witnesses). *)
+(* C20_proofs.v -- proofs about GuiLoop.v: the repaired receive loop, sharing the client mutex with an
+   arbitrary GUI thread, never spins, stops once the session has ended, forwards exactly what it received and
+   drains the TLS buffer -- under an explicit fairness hypothesis on the schedule where one is needed; the two
+   threads are never both inside the client, never wait for each other in a cycle, GUI writes do not disturb
+   the receive side, the client is released when the thread ends; the loop as found spins / stalls (witnesses). *)
 From RdpV Require Import Base GuiLoop.
+
+Ltac dst s := destruct s as [sk cl tl sy p o lk rf ob ws h c l].
+Ltac fld := cbn [pcs sock closed tls sync out lock refs outb wshut hist cons lost] in *.
 
 (* ------------------------------------------------------------------ termination measure *)
 
 Lemma step_decreases s s' : tstep repaired s = Some s' -> (measure s' < measure s)%nat.
 Proof.
-  destruct s as [sk cl tl sy p o h c l]. unfold tstep, measure, ntok.
-  cbn [pcs sock closed tls sync out hist cons lost].
+  dst s. unfold tstep, measure, ntok, lock_free, set_read, set_pc, set_lock_pc. fld.
   destruct p.
   - destruct (is_nil sk && match cl with None => true | Some _ => false end); [discriminate|].
-    intros H; inversion H; subst; clear H. cbn. destruct sy; cbn; lia.
-  - intros H; inversion H; subst; clear H. cbn. lia.
+    intros H; inversion H; subst; clear H. cbn. lia.
+  - intros H; inversion H; subst; clear H. cbn. destruct sy; cbn; lia.
+  - destruct lk; try discriminate. intros H; inversion H; subst; clear H. cbn. lia.
   - destruct tl as [|t rest].
     + destruct sk as [|r rs].
       * destruct cl; [|discriminate]. intros H; inversion H; subst; clear H. cbn. lia.
       * intros H; inversion H; subst; clear H. cbn. rewrite app_length. lia.
     + destruct t as [|[evs|c0]]; intros H; inversion H; subst; clear H; cbn; try lia.
       destruct (negb (is_nil rest)); cbn; lia.
+  - intros H; inversion H; subst; clear H. cbn. lia.
+  - intros H; inversion H; subst; clear H. cbn. lia.
+  - intros H; inversion H; subst; clear H. cbn. lia.
   - discriminate.
 Qed.
 
@@ -63,103 +71,157 @@ Qed.
 
 (* ------------------------------------------------------------------ the invariant *)
 
+(* program points before the read of a lock cycle / after its last read: nothing decrypted is left unread *)
+Definition outside_read (p : pc) : bool :=
+  match p with AtWait | AtSync | AtLock | AtUnlock => true | _ => false end.
+(* the thread is on its way out *)
+Definition leaving (p : pc) : bool :=
+  match p with AtDrop | AtRet | Exited => true | _ => false end.
+Definition lock_is_recv (s : st) : bool := match lock s with HeldByRecv => true | _ => false end.
+
 Definition Inv (s : st) : Prop :=
   hist s = cons s ++ tls s ++ concat (sock s) ++ lost s /\
   (closed s <> Some Reset -> lost s = []) /\
-  (pcs s = AtWait \/ pcs s = AtLock -> tls s = []) /\
+  (outside_read (pcs s) = true -> tls s = []) /\
+  lock_is_recv s = recv_inside s /\
+  refs s = (match pcs s with Exited => 1 | _ => 2 end)%nat /\
   ((nofail (cons s) /\ out s = evs_of (cons s) /\
-    (pcs s = Exited -> sync s = false \/ (closed s <> None /\ tls s = [] /\ sock s = [])))
+    (leaving (pcs s) = true -> sync s = false \/ (closed s <> None /\ tls s = [] /\ sock s = [])))
    \/
-   (pcs s = Exited /\ exists c0 c, cons s = c0 ++ [Fin (PFail c)] /\ nofail c0 /\ out s = evs_of c0)).
+   (leaving (pcs s) = true /\ exists c0 c, cons s = c0 ++ [Fin (PFail c)] /\ nofail c0 /\ out s = evs_of c0)).
 
 Lemma Inv_init : Inv init.
 Proof.
-  unfold Inv, init; cbn. repeat split; auto.
+  unfold Inv, init; cbn. repeat split; auto; try discriminate.
   left. split; [exact nofail_nil|]. split; [reflexivity|]. intros H; discriminate.
 Qed.
 
 Lemma Inv_tstep s s' : Inv s -> tstep repaired s = Some s' -> Inv s'.
 Proof.
-  destruct s as [sk cl tl sy p o h c l]. unfold Inv, tstep.
-  cbn [pcs sock closed tls sync out hist cons lost].
-  intros (Hh & Hl & Hw & Hd) Hs.
+  dst s. unfold Inv, tstep, lock_is_recv, recv_inside, lock_free, set_read, set_pc, set_lock_pc. fld.
+  intros (Hh & Hl & Hw & Hk & Hr & Hd) Hs.
   destruct p.
   - (* AtWait *)
     destruct (is_nil sk && match cl with None => true | Some _ => false end); [discriminate|].
-    injection Hs as <-. cbn.
+    injection Hs as <-. fld. cbn [outside_read leaving] in *.
+    destruct Hd as [(Hn & Ho & _)|(Hx & _)]; [|discriminate].
+    repeat (split; [assumption || (intros; auto; fail)|]).
+    left. split; [exact Hn|]. split; [exact Ho|]. intros H; discriminate.
+  - (* AtSync *)
+    injection Hs as <-. fld. cbn [outside_read leaving] in *.
     destruct Hd as [(Hn & Ho & _)|(Hx & _)]; [|discriminate].
     split; [exact Hh|]. split; [exact Hl|].
-    split; [intros _; apply Hw; left; reflexivity|].
+    split; [intros _; apply Hw; reflexivity|].
+    split; [destruct sy; exact Hk|].
+    split; [destruct sy; exact Hr|].
     left. split; [exact Hn|]. split; [exact Ho|].
-    destruct sy; [intros H; discriminate|intros _; left; reflexivity].
+    destruct sy; cbn; [intros H; discriminate|intros _; left; reflexivity].
   - (* AtLock *)
-    injection Hs as <-. cbn.
+    destruct lk; try discriminate.
+    injection Hs as <-. fld. cbn [outside_read leaving] in *.
     destruct Hd as [(Hn & Ho & _)|(Hx & _)]; [|discriminate].
     split; [exact Hh|]. split; [exact Hl|].
-    split; [intros [H|H]; discriminate|].
+    split; [intros H; discriminate|].
+    split; [reflexivity|]. split; [exact Hr|].
     left. split; [exact Hn|]. split; [exact Ho|]. intros H; discriminate.
   - (* AtRead *)
+    cbn [outside_read leaving] in *.
     destruct Hd as [(Hn & Ho & _)|(Hx & _)]; [|discriminate].
     destruct tl as [|t rest].
     + destruct sk as [|r rs].
-      * destruct cl as [k|]; [|discriminate]. injection Hs as <-. cbn.
+      * destruct cl as [k|]; [|discriminate]. injection Hs as <-. fld. cbn.
         split; [exact Hh|]. split; [exact Hl|].
-        split; [intros [H|H]; discriminate|].
+        split; [intros H; discriminate|].
+        split; [exact Hk|]. split; [exact Hr|].
         left. split; [exact Hn|]. split; [exact Ho|].
         intros _. right. split; [discriminate|]. split; reflexivity.
-      * injection Hs as <-. cbn.
+      * injection Hs as <-. fld. cbn [outside_read leaving].
         split; [rewrite Hh; cbn; rewrite <- app_assoc; reflexivity|].
-        split; [exact Hl|]. split; [intros [H|H]; discriminate|].
+        split; [exact Hl|]. split; [intros H; discriminate|].
+        split; [exact Hk|]. split; [exact Hr|].
         left. split; [exact Hn|]. split; [exact Ho|]. intros H; discriminate.
     + assert (Hh' : h = (c ++ [t]) ++ rest ++ concat sk ++ l)
         by (rewrite Hh; rewrite <- app_assoc; reflexivity).
-      destruct t as [|[evs|c0]]; injection Hs as <-; cbn.
-      * split; [exact Hh'|]. split; [exact Hl|]. split; [intros [H|H]; discriminate|].
+      destruct t as [|[evs|c0]]; injection Hs as <-; fld; cbn [outside_read leaving after_err repaired break_any drain andb].
+      * split; [exact Hh'|]. split; [exact Hl|]. split; [intros H; discriminate|].
+        split; [exact Hk|]. split; [exact Hr|].
         left. split; [apply nofail_snoc; [exact Hn|intros c1 H; discriminate]|].
         split; [rewrite evs_of_app by exact Hn; cbn; rewrite app_nil_r; exact Ho|].
         intros H; discriminate.
       * split; [exact Hh'|]. split; [exact Hl|].
-        split; [destruct rest; cbn; [intros _; reflexivity|intros [H|H]; discriminate]|].
+        split; [destruct rest; cbn; [intros _; reflexivity|intros H; discriminate]|].
+        split; [destruct rest; exact Hk|]. split; [destruct rest; exact Hr|].
         left. split; [apply nofail_snoc; [exact Hn|intros c1 H; discriminate]|].
         split; [rewrite evs_of_app by exact Hn; cbn; rewrite app_nil_r; rewrite Ho; reflexivity|].
         destruct rest; cbn; intros H; discriminate.
-      * split; [exact Hh'|]. split; [exact Hl|]. split; [intros [H|H]; discriminate|].
+      * split; [exact Hh'|]. split; [exact Hl|]. split; [intros H; discriminate|].
+        split; [exact Hk|]. split; [exact Hr|].
         right. split; [reflexivity|]. exists c, c0. split; [reflexivity|]. split; [exact Hn|exact Ho].
+  - (* AtUnlock *)
+    injection Hs as <-. fld. cbn [outside_read leaving] in *.
+    destruct Hd as [(Hn & Ho & _)|(Hx & _)]; [|discriminate].
+    split; [exact Hh|]. split; [exact Hl|].
+    split; [intros _; apply Hw; reflexivity|].
+    split; [reflexivity|]. split; [exact Hr|].
+    left. split; [exact Hn|]. split; [exact Ho|]. intros H; discriminate.
+  - (* AtDrop *)
+    injection Hs as <-. fld. cbn [outside_read leaving] in *.
+    split; [exact Hh|]. split; [exact Hl|].
+    split; [intros H; discriminate|].
+    split; [reflexivity|]. split; [exact Hr|].
+    exact Hd.
+  - (* AtRet *)
+    injection Hs as <-. fld. cbn [outside_read leaving] in *.
+    split; [exact Hh|]. split; [exact Hl|].
+    split; [intros H; discriminate|].
+    split; [exact Hk|]. split; [rewrite Hr; reflexivity|].
+    exact Hd.
   - discriminate.
 Qed.
 
+(* the disjunct about what was delivered is stable when the connection state only moves forward *)
 Lemma Inv_env a s : Inv s -> Inv (env_step a s).
 Proof.
-  destruct s as [sk cl tl sy p o h c l]. unfold Inv, env_step.
-  cbn [pcs sock closed tls sync out hist cons lost].
-  intros (Hh & Hl & Hw & Hd).
-  destruct a as [r|k|].
-  - destruct cl as [k0|]; cbn; [repeat split; assumption|].
+  dst s. unfold Inv, env_step, gui_put, lock_is_recv, recv_inside, lock_free, gui_holds, set_lock, set_lock_pc. fld.
+  intros (Hh & Hl & Hw & Hk & Hr & Hd).
+  destruct a as [r|k| | |n| |].
+  - (* Send *)
+    destruct cl as [k0|]; fld; [repeat split; assumption|].
     assert (Hl0 : l = []) by (apply Hl; discriminate). subst l.
     split; [rewrite Hh; rewrite concat_app; cbn; rewrite !app_nil_r; rewrite <- !app_assoc; reflexivity|].
-    split; [intros _; reflexivity|]. split; [exact Hw|].
-    destruct Hd as [(Hn & Ho & He)|Hr]; [|right; exact Hr].
+    split; [intros _; reflexivity|]. split; [exact Hw|]. split; [exact Hk|]. split; [exact Hr|].
+    destruct Hd as [(Hn & Ho & He)|Hx]; [|right; exact Hx].
     left. split; [exact Hn|]. split; [exact Ho|].
     intros Hp. destruct (He Hp) as [H|(H & _)]; [left; exact H|exfalso; apply H; reflexivity].
-  - destruct cl as [k0|]; cbn; [repeat split; assumption|].
+  - (* Close *)
+    destruct cl as [k0|]; fld; [repeat split; assumption|].
     assert (Hl0 : l = []) by (apply Hl; discriminate). subst l.
-    destruct k; cbn.
-    + split; [exact Hh|]. split; [intros _; reflexivity|]. split; [exact Hw|].
-      destruct Hd as [(Hn & Ho & He)|Hr]; [|right; exact Hr].
+    destruct k; fld.
+    + split; [exact Hh|]. split; [intros _; reflexivity|]. split; [exact Hw|]. split; [exact Hk|]. split; [exact Hr|].
+      destruct Hd as [(Hn & Ho & He)|Hx]; [|right; exact Hx].
       left. split; [exact Hn|]. split; [exact Ho|].
       intros Hp. destruct (He Hp) as [H|(H & _)]; [left; exact H|exfalso; apply H; reflexivity].
-    + split; [exact Hh|]. split; [intros _; reflexivity|]. split; [exact Hw|].
-      destruct Hd as [(Hn & Ho & He)|Hr]; [|right; exact Hr].
+    + split; [exact Hh|]. split; [intros _; reflexivity|]. split; [exact Hw|]. split; [exact Hk|]. split; [exact Hr|].
+      destruct Hd as [(Hn & Ho & He)|Hx]; [|right; exact Hx].
       left. split; [exact Hn|]. split; [exact Ho|].
       intros Hp. destruct (He Hp) as [H|(H & _)]; [left; exact H|exfalso; apply H; reflexivity].
     + split; [rewrite Hh; cbn; rewrite !app_nil_r; reflexivity|].
-      split; [intros H; exfalso; apply H; reflexivity|]. split; [exact Hw|].
-      destruct Hd as [(Hn & Ho & He)|Hr]; [|right; exact Hr].
+      split; [intros H; exfalso; apply H; reflexivity|]. split; [exact Hw|]. split; [exact Hk|]. split; [exact Hr|].
+      destruct Hd as [(Hn & Ho & He)|Hx]; [|right; exact Hx].
       left. split; [exact Hn|]. split; [exact Ho|].
       intros Hp. destruct (He Hp) as [H|(H & _)]; [left; exact H|exfalso; apply H; reflexivity].
-  - cbn. split; [exact Hh|]. split; [exact Hl|]. split; [exact Hw|].
-    destruct Hd as [(Hn & Ho & He)|Hr]; [|right; exact Hr].
+  - (* GuiStop *)
+    fld. split; [exact Hh|]. split; [exact Hl|]. split; [exact Hw|]. split; [exact Hk|]. split; [exact Hr|].
+    destruct Hd as [(Hn & Ho & He)|Hx]; [|right; exact Hx].
     left. split; [exact Hn|]. split; [exact Ho|]. intros _. left. reflexivity.
+  - (* GuiLock *)
+    destruct lk; fld; repeat split; try assumption.
+  - (* GuiWrite *)
+    destruct lk, ws, cl; fld; repeat split; try assumption.
+  - (* GuiShutdown *)
+    destruct lk, ws, cl; fld; repeat split; try assumption.
+  - (* GuiUnlock *)
+    destruct lk; fld; repeat split; try assumption.
 Qed.
 
 Lemma Inv_sched s x : Inv s -> Inv (sched_step repaired s x).
@@ -177,25 +239,52 @@ Qed.
 Lemma Inv_steps s s' : steps s s' -> Inv s -> Inv s'.
 Proof. induction 1; intros HI; [exact HI|]. apply IHsteps. eapply Inv_tstep; eauto. Qed.
 
+(* ------------------------------------------------------------------ frames *)
+
 (* thread steps do not touch the environment's own fields *)
-Lemma tstep_frame v s s' : tstep v s = Some s' -> hist s' = hist s /\ closed s' = closed s /\ sync s' = sync s.
+Lemma tstep_frame v s s' :
+  tstep v s = Some s' -> hist s' = hist s /\ closed s' = closed s /\ sync s' = sync s /\ outb s' = outb s /\ wshut s' = wshut s.
 Proof.
-  destruct s as [sk cl tl sy p o h c l]. unfold tstep.
-  cbn [pcs sock closed tls sync out hist cons lost].
+  dst s. unfold tstep, lock_free, set_read, set_pc, set_lock_pc. fld.
   destruct p.
   - destruct (is_nil sk && match cl with None => true | Some _ => false end); [discriminate|].
     intros H; inversion H; subst; cbn; auto.
   - intros H; inversion H; subst; cbn; auto.
+  - destruct lk; try discriminate. intros H; inversion H; subst; cbn; auto.
   - destruct tl as [|t rest].
     + destruct sk as [|r rs]; [destruct cl; [|discriminate]|]; intros H; inversion H; subst; cbn; auto.
     + destruct t as [|[e|c0]]; intros H; inversion H; subst; cbn; auto.
+  - intros H; inversion H; subst; cbn; auto.
+  - intros H; inversion H; subst; cbn; auto.
+  - intros H; inversion H; subst; cbn; auto.
   - discriminate.
 Qed.
 
 Lemma steps_frame s s' : steps s s' -> hist s' = hist s /\ closed s' = closed s /\ sync s' = sync s.
 Proof.
-  induction 1; [auto|]. apply tstep_frame in H. destruct H as (A & B & C), IHsteps as (A' & B' & C').
+  induction 1; [auto|]. apply tstep_frame in H. destruct H as (A & B & C & _), IHsteps as (A' & B' & C').
   repeat split; congruence.
+Qed.
+
+(* actions of the GUI thread touch only `sync`, the mutex and the outbound side *)
+Lemma gui_frame a s :
+  silent (Some a) = true ->
+  sock (env_step a s) = sock s /\ closed (env_step a s) = closed s /\ tls (env_step a s) = tls s /\
+  pcs (env_step a s) = pcs s /\ out (env_step a s) = out s /\ hist (env_step a s) = hist s /\
+  cons (env_step a s) = cons s /\ lost (env_step a s) = lost s /\ refs (env_step a s) = refs s.
+Proof.
+  dst s. unfold env_step, gui_put, lock_free, gui_holds, set_lock, set_lock_pc. fld.
+  destruct a as [r|k| | |n| |]; cbn [silent]; try discriminate; intros _.
+  - cbn. repeat split.
+  - destruct lk; cbn; repeat split.
+  - destruct lk, ws, cl; cbn; repeat split.
+  - destruct lk, ws, cl; cbn; repeat split.
+  - destruct lk; cbn; repeat split.
+Qed.
+
+Lemma gui_measure a s : silent (Some a) = true -> measure (env_step a s) = measure s.
+Proof.
+  intros H. destruct (gui_frame a s H) as (A & _ & B & C & _). unfold measure, ntok. rewrite A, B, C. reflexivity.
 Qed.
 
 (* a state in which the thread cannot move *)
@@ -203,24 +292,142 @@ Lemma quiet_cases s :
   tstep repaired s = None ->
   pcs s = Exited \/
   (pcs s = AtWait /\ sock s = [] /\ closed s = None) \/
-  (pcs s = AtRead /\ tls s = [] /\ sock s = [] /\ closed s = None).
+  (pcs s = AtRead /\ tls s = [] /\ sock s = [] /\ closed s = None) \/
+  (pcs s = AtLock /\ lock s <> Free).
 Proof.
-  destruct s as [sk cl tl sy p o h c l]. unfold tstep.
-  cbn [pcs sock closed tls sync out hist cons lost].
-  destruct p.
+  dst s. unfold tstep, lock_free, set_read, set_pc, set_lock_pc. fld.
+  destruct p; try discriminate.
   - destruct sk, cl; cbn; try discriminate. intros _. right. left. auto.
-  - discriminate.
+  - destruct lk; try discriminate; intros _; right; right; right; split; auto; discriminate.
   - destruct tl as [|t rest].
-    + destruct sk; [destruct cl; [discriminate|]|discriminate]. intros _. right. right. auto.
+    + destruct sk; [destruct cl; [discriminate|]|discriminate]. intros _. right. right. left. auto.
     + destruct t as [|[e|c0]]; discriminate.
   - intros _. left. reflexivity.
+Qed.
+
+(* ... and is not waiting for the GUI either *)
+Lemma settled_cases s :
+  Inv s -> settled repaired s = true ->
+  pcs s = Exited \/
+  (pcs s = AtWait /\ sock s = [] /\ closed s = None) \/
+  (pcs s = AtRead /\ tls s = [] /\ sock s = [] /\ closed s = None).
+Proof.
+  intros HI. unfold settled. destruct (tstep repaired s) eqn:E; [discriminate|]. intros Hm.
+  destruct (quiet_cases s E) as [H|[H|[H|(Hp & Hl)]]]; auto.
+  exfalso. destruct HI as (_ & _ & _ & Hk & _).
+  unfold mutex_blocked, gui_holds in Hm. unfold lock_is_recv, recv_inside in Hk. rewrite Hp in *.
+  destruct (lock s); try discriminate. apply Hl; reflexivity.
+Qed.
+
+(* ------------------------------------------------------------------ fairness: turns => the thread settles *)
+
+Lemma mutex_blocked_stuck s : mutex_blocked s = true -> tstep repaired s = None.
+Proof.
+  dst s. unfold mutex_blocked, gui_holds, tstep, lock_free. fld. destruct p; try discriminate.
+  destruct lk; try discriminate. reflexivity.
+Qed.
+
+Definition conn_open (s : st) : bool := match closed s with None => true | Some _ => false end.
+
+Lemma settled_char s :
+  settled repaired s =
+  match pcs s with
+  | Exited => true
+  | AtWait => is_nil (sock s) && conn_open s
+  | AtRead => is_nil (tls s) && is_nil (sock s) && conn_open s
+  | AtLock => lock_is_recv s
+  | _ => false
+  end.
+Proof.
+  dst s. unfold settled, mutex_blocked, tstep, lock_free, gui_holds, lock_is_recv, conn_open, set_pc, set_lock_pc, set_read. fld.
+  destruct p; try reflexivity.
+  - destruct (is_nil sk && match cl with None => true | Some _ => false end); reflexivity.
+  - destruct lk; reflexivity.
+  - destruct tl as [|[|[e|c0]] rest]; cbn; try reflexivity.
+    destruct sk; cbn; [|reflexivity]. destruct cl; reflexivity.
+Qed.
+
+Lemma gui_lock_is_recv a s : silent (Some a) = true -> lock_is_recv (env_step a s) = lock_is_recv s.
+Proof.
+  dst s. unfold env_step, gui_put, lock_free, gui_holds, lock_is_recv, set_lock, set_lock_pc. fld.
+  destruct a as [r|k| | |n| |]; cbn [silent]; try discriminate; intros _; try reflexivity.
+  - destruct lk; reflexivity.
+  - destruct lk, ws, cl; reflexivity.
+  - destruct lk, ws, cl; reflexivity.
+  - destruct lk; reflexivity.
+Qed.
+
+Lemma settled_sched s x : silent x = true -> settled repaired s = true -> settled repaired (sched_step repaired s x) = true.
+Proof.
+  intros Hx Hs. destruct x as [a|]; cbn [sched_step].
+  - rewrite settled_char in *. unfold conn_open in *.
+    destruct (gui_frame a s Hx) as (A & B & C & D & _).
+    rewrite A, B, C, D, (gui_lock_is_recv a s Hx). exact Hs.
+  - unfold settled in Hs. destruct (tstep repaired s) eqn:E; [discriminate|].
+    unfold settled. rewrite E. exact Hs.
+Qed.
+
+Lemma settled_run fin : forall s, forallb silent fin = true -> settled repaired s = true -> settled repaired (run repaired fin s) = true.
+Proof.
+  unfold run. induction fin as [|x r IH]; intros s Hf Hs; cbn [fold_left]; [exact Hs|].
+  cbn [forallb] in Hf. apply andb_prop in Hf. destruct Hf as (Hx & Hr).
+  apply IH; [exact Hr|]. apply settled_sched; assumption.
+Qed.
+
+(* the fairness lemma: a silent schedule that gives the thread more than [measure s] turns not wasted on a mutex
+   held by the GUI brings the thread to rest *)
+Lemma settles fin : forall s,
+  forallb silent fin = true -> (measure s < turns repaired fin s)%nat -> settled repaired (run repaired fin s) = true.
+Proof.
+  induction fin as [|x r IH]; intros s Hf Ht; cbn [turns] in Ht; [lia|].
+  cbn [forallb] in Hf. apply andb_prop in Hf. destruct Hf as (Hx & Hr).
+  unfold run. cbn [fold_left]. fold (run repaired r (sched_step repaired s x)).
+  destruct x as [a|].
+  - apply IH; [exact Hr|]. cbn [sched_step] in *. rewrite gui_measure by exact Hx. lia.
+  - cbn [sched_step] in *. destruct (mutex_blocked s) eqn:Em.
+    + rewrite (mutex_blocked_stuck s Em) in *. apply IH; [exact Hr|lia].
+    + destruct (tstep repaired s) as [s1|] eqn:E.
+      * apply IH; [exact Hr|]. apply step_decreases in E. lia.
+      * apply settled_run; [exact Hr|]. unfold settled. rewrite E, Em. reflexivity.
+Qed.
+
+(* never more steps than the measure, whatever the GUI does *)
+Lemma moves_bound fin : forall s,
+  forallb silent fin = true -> (moves repaired fin s + measure (run repaired fin s) <= measure s)%nat.
+Proof.
+  induction fin as [|x r IH]; intros s Hf; cbn [moves]; [cbn; lia|].
+  cbn [forallb] in Hf. apply andb_prop in Hf. destruct Hf as (Hx & Hr).
+  unfold run. cbn [fold_left]. fold (run repaired r (sched_step repaired s x)).
+  specialize (IH (sched_step repaired s x) Hr).
+  destruct x as [a|]; cbn [sched_step] in *.
+  - rewrite gui_measure in IH by exact Hx. lia.
+  - destruct (tstep repaired s) as [s1|] eqn:E; [apply step_decreases in E; lia|lia].
+Qed.
+
+(* a silent schedule leaves the server's side alone *)
+Lemma silent_sched_frame s x :
+  silent x = true ->
+  hist (sched_step repaired s x) = hist s /\ closed (sched_step repaired s x) = closed s.
+Proof.
+  intros Hx. destruct x as [a|]; cbn [sched_step].
+  - destruct (gui_frame a s Hx) as (_ & B & _ & _ & _ & F & _). auto.
+  - destruct (tstep repaired s) as [s1|] eqn:E; [|auto]. apply tstep_frame in E. destruct E as (A & B & _). auto.
+Qed.
+
+Lemma silent_run_frame fin : forall s,
+  forallb silent fin = true -> hist (run repaired fin s) = hist s /\ closed (run repaired fin s) = closed s.
+Proof.
+  unfold run. induction fin as [|x r IH]; intros s Hf; cbn [fold_left]; [auto|].
+  cbn [forallb] in Hf. apply andb_prop in Hf. destruct Hf as (Hx & Hr).
+  destruct (IH (sched_step repaired s x) Hr) as (A & B).
+  destruct (silent_sched_frame s x Hx) as (A' & B'). split; congruence.
 Qed.
 
 (* ------------------------------------------------------------------ order *)
 
 Lemma order_of_Inv s : Inv s -> exists rest, evs_of (hist s) = out s ++ rest.
 Proof.
-  intros (Hh & _ & _ & [(Hn & Ho & _)|(_ & c0 & c & Hc & Hn & Ho)]).
+  intros (Hh & _ & _ & _ & _ & [(Hn & Ho & _)|(_ & c0 & c & Hc & Hn & Ho)]).
   - rewrite Hh, Ho. rewrite evs_of_app by exact Hn. eexists; reflexivity.
   - rewrite Hh, Hc, Ho. rewrite <- !app_assoc. rewrite evs_of_app by exact Hn. cbn.
     exists []. reflexivity.
@@ -229,48 +436,64 @@ Qed.
 Lemma loop_order sc : exists rest, evs_of (hist (run repaired sc init)) = out (run repaired sc init) ++ rest.
 Proof. apply order_of_Inv, Inv_run, Inv_init. Qed.
 
-(* ------------------------------------------------------------------ never spins; drains *)
+(* ------------------------------------------------------------------ never spins *)
 
-Lemma loop_never_spins sc :
+Lemma loop_never_spins sc fin :
+  forallb silent fin = true ->
+  (moves repaired fin (run repaired sc init) <= measure (run repaired sc init))%nat.
+Proof. intros Hf. pose proof (moves_bound fin (run repaired sc init) Hf). lia. Qed.
+
+(* the thread alone (GUI idle) comes to rest within the fuel *)
+Lemma loop_comes_to_rest sc :
   exists s', quiesce repaired (fuel_of (run repaired sc init)) (run repaired sc init) = RQuiet s'.
 Proof.
   destruct (quiesce_quiet (fuel_of (run repaired sc init)) (run repaired sc init)) as (s' & Hq & _);
     [unfold fuel_of; lia|]. exists s'. exact Hq.
 Qed.
 
-Lemma drains_of_Inv s :
-  Inv s -> closed s <> Some Reset -> sync s = true ->
-  exists s', quiesce repaired (fuel_of s) s = RQuiet s' /\
-             out s' = evs_of (hist s) /\
-             (pcs s' <> Exited -> tls s' = [] /\ sock s' = [] /\ closed s' = None).
+(* ------------------------------------------------------------------ drains *)
+
+(* SAFETY, no fairness: whenever the thread is at rest and not waiting for the GUI, everything sent was forwarded *)
+Lemma drained_of_settled s :
+  Inv s -> settled repaired s = true -> closed s <> Some Reset -> sync s = true ->
+  out s = evs_of (hist s) /\ (pcs s <> Exited -> tls s = [] /\ sock s = [] /\ closed s = None).
 Proof.
-  intros HI Hc Hsy.
-  destruct (quiesce_quiet (fuel_of s) s) as (s' & Hq & Hst & Hn); [unfold fuel_of; lia|].
-  exists s'. split; [exact Hq|].
-  pose proof (Inv_steps _ _ Hst HI) as (Hh & Hl & Hw & Hd).
-  destruct (steps_frame _ _ Hst) as (Fh & Fc & Fs).
-  assert (Hl0 : lost s' = []) by (apply Hl; rewrite Fc; exact Hc).
-  rewrite <- Fh.
-  destruct (quiet_cases _ Hn) as [Hp|[(Hp & Hk & Hcl)|(Hp & Ht & Hk & Hcl)]].
+  intros HI Hs Hc Hsy.
+  pose proof HI as (Hh & Hl & Hw & _ & _ & Hd).
+  assert (Hl0 : lost s = []) by (apply Hl; exact Hc).
+  destruct (settled_cases s HI Hs) as [Hp|[(Hp & Hk & Hcl)|(Hp & Ht & Hk & Hcl)]].
   - split; [|intros H; contradiction].
     destruct Hd as [(Hnf & Ho & He)|(_ & c0 & c & Hcs & Hnf & Ho)].
-    + destruct (He Hp) as [H|(_ & Ht & Hk)]; [rewrite Fs, Hsy in H; discriminate|].
+    + destruct He as [H|(_ & Ht & Hk)]; [rewrite Hp; reflexivity|rewrite Hsy in H; discriminate|].
       rewrite Hh, Ht, Hk, Hl0. cbn. rewrite app_nil_r. exact Ho.
     + rewrite Hh, Hcs, Ho. rewrite <- !app_assoc. rewrite evs_of_app by exact Hnf. cbn.
       rewrite app_nil_r. reflexivity.
-  - assert (Ht : tls s' = []) by (apply Hw; left; exact Hp).
+  - assert (Ht : tls s = []) by (apply Hw; rewrite Hp; reflexivity).
     destruct Hd as [(Hnf & Ho & _)|(Hx & _)]; [|rewrite Hp in Hx; discriminate].
     split; [rewrite Hh, Ht, Hk, Hl0; cbn; rewrite app_nil_r; exact Ho|]. intros _. auto.
   - destruct Hd as [(Hnf & Ho & _)|(Hx & _)]; [|rewrite Hp in Hx; discriminate].
     split; [rewrite Hh, Ht, Hk, Hl0; cbn; rewrite app_nil_r; exact Ho|]. intros _. auto.
 Qed.
 
-Lemma loop_drains sc :
-  closed (run repaired sc init) <> Some Reset -> sync (run repaired sc init) = true ->
-  exists s', quiesce repaired (fuel_of (run repaired sc init)) (run repaired sc init) = RQuiet s' /\
-             out s' = evs_of (hist (run repaired sc init)) /\
-             (pcs s' <> Exited -> tls s' = [] /\ sock s' = [] /\ closed s' = None).
-Proof. apply drains_of_Inv, Inv_run, Inv_init. Qed.
+Lemma loop_drained sc :
+  let s := run repaired sc init in
+  settled repaired s = true -> closed s <> Some Reset -> sync s = true ->
+  out s = evs_of (hist s) /\ (pcs s <> Exited -> tls s = [] /\ sock s = [] /\ closed s = None).
+Proof. intros s. apply drained_of_settled, Inv_run, Inv_init. Qed.
+
+(* LIVENESS under fairness *)
+Lemma loop_drains sc fin :
+  let s := run repaired sc init in
+  let s' := run repaired fin s in
+  forallb silent fin = true -> (fuel_of s <= turns repaired fin s)%nat ->
+  closed s <> Some Reset -> sync s' = true ->
+  out s' = evs_of (hist s) /\ (pcs s' <> Exited -> tls s' = [] /\ sock s' = [] /\ closed s' = None).
+Proof.
+  intros s s' Hf Ht Hc Hsy.
+  destruct (silent_run_frame fin s Hf) as (Fh & Fc). fold s' in Fh, Fc.
+  rewrite <- Fh. apply drained_of_settled; [apply Inv_run, Inv_run, Inv_init| |rewrite Fc; exact Hc|exact Hsy].
+  apply settles; [exact Hf|]. unfold fuel_of in Ht. lia.
+Qed.
 
 (* ------------------------------------------------------------------ stops with the session *)
 
@@ -278,12 +501,14 @@ Definition ended (s : st) : Prop := closed s <> None \/ exists c, In (Fin (PFail
 
 Lemma ended_env a s : ended s -> ended (env_step a s).
 Proof.
-  destruct s as [sk cl tl sy p o h c l]. unfold ended, env_step. cbn [closed hist].
-  intros [H|(c1 & H)].
-  - left. destruct a as [r|[]|]; destruct cl; cbn; try discriminate; exfalso; apply H; reflexivity.
-  - destruct a as [r|[]|]; destruct cl; cbn; try (left; discriminate);
-      right; exists c1; try exact H.
-    apply in_or_app. left. exact H.
+  destruct (silent (Some a)) eqn:Hs.
+  - destruct (gui_frame a s Hs) as (_ & B & _ & _ & _ & F & _). unfold ended. rewrite B, F. auto.
+  - dst s. unfold ended, env_step. fld.
+    intros [H|(c1 & H)].
+    + left. destruct a as [r|[]| | |n| |]; try discriminate; destruct cl; fld; try discriminate; exfalso; apply H; reflexivity.
+    + destruct a as [r|[]| | |n| |]; try discriminate; destruct cl; fld; try (left; discriminate);
+        right; exists c1; try exact H.
+      apply in_or_app. left. exact H.
 Qed.
 
 Lemma ended_sched s x : ended s -> ended (sched_step repaired s x).
@@ -301,7 +526,7 @@ Qed.
 
 Lemma end_action_ends k s : ended (env_step (end_action k) s).
 Proof.
-  destruct s as [sk cl tl sy p o h c l]. unfold ended, env_step, end_action.
+  dst s. unfold ended, env_step, end_action.
   destruct cl as [k0|].
   - destruct k as [|c0|k1]; cbn; left; discriminate.
   - destruct k as [|c0|k1]; cbn.
@@ -310,34 +535,415 @@ Proof.
     + left. destruct k1; discriminate.
 Qed.
 
-Lemma exits_of_ended s :
-  Inv s -> ended s -> exists s', quiesce repaired (fuel_of s) s = RQuiet s' /\ pcs s' = Exited.
+(* SAFETY, no fairness: once the session has ended the thread cannot be at rest anywhere but at its exit *)
+Lemma exited_of_settled s : Inv s -> ended s -> settled repaired s = true -> pcs s = Exited.
 Proof.
-  intros HI He.
-  destruct (quiesce_quiet (fuel_of s) s) as (s' & Hq & Hst & Hn); [unfold fuel_of; lia|].
-  exists s'. split; [exact Hq|].
-  pose proof (Inv_steps _ _ Hst HI) as (Hh & Hl & Hw & Hd).
-  destruct (steps_frame _ _ Hst) as (Fh & Fc & _).
-  assert (Hblocked : pcs s' <> Exited -> tls s' = [] -> sock s' = [] -> closed s' = None -> False).
+  intros HI He Hs.
+  pose proof HI as (Hh & Hl & Hw & _ & _ & Hd).
+  assert (Hblocked : pcs s <> Exited -> tls s = [] -> sock s = [] -> closed s = None -> False).
   { intros Hp Ht Hk Hcl.
-    destruct He as [Hc|(c1 & Hin)]; [apply Hc; rewrite <- Fc; exact Hcl|].
-    destruct Hd as [(Hnf & _)|(Hx & _)]; [|contradiction].
-    assert (Hl0 : lost s' = []) by (apply Hl; rewrite Hcl; discriminate).
-    rewrite <- Fh, Hh, Ht, Hk, Hl0 in Hin. cbn in Hin. rewrite app_nil_r in Hin.
-    exact (Hnf c1 Hin). }
-  destruct (quiet_cases _ Hn) as [Hp|[(Hp & Hk & Hcl)|(Hp & Ht & Hk & Hcl)]]; [exact Hp| |].
-  - exfalso. apply Hblocked; [rewrite Hp; discriminate|apply Hw; left; exact Hp|exact Hk|exact Hcl].
+    destruct He as [Hc|(c1 & Hin)]; [apply Hc; exact Hcl|].
+    destruct Hd as [(Hnf & _)|(Hx & c0 & c & Hcs & _)].
+    - assert (Hl0 : lost s = []) by (apply Hl; rewrite Hcl; discriminate).
+      rewrite Hh, Ht, Hk, Hl0 in Hin. cbn in Hin. rewrite app_nil_r in Hin.
+      exact (Hnf c1 Hin).
+    - destruct (settled_cases s HI Hs) as [H|[(H & _)|(H & _)]]; [contradiction|rewrite H in Hx; discriminate..]. }
+  destruct (settled_cases s HI Hs) as [Hp|[(Hp & Hk & Hcl)|(Hp & Ht & Hk & Hcl)]]; [exact Hp| |].
+  - exfalso. apply Hblocked; [rewrite Hp; discriminate|apply Hw; rewrite Hp; reflexivity|exact Hk|exact Hcl].
   - exfalso. apply Hblocked; [rewrite Hp; discriminate|exact Ht|exact Hk|exact Hcl].
 Qed.
 
-Lemma loop_terminates sc k more :
-  let s := run repaired (sc ++ [Some (end_action k)] ++ more) init in
-  exists s', quiesce repaired (fuel_of s) s = RQuiet s' /\ pcs s' = Exited.
+(* the client is released when the thread has ended *)
+Lemma released_of_exited s : Inv s -> pcs s = Exited -> released s = true /\ refs s = 1%nat /\ lock s <> HeldByRecv.
 Proof.
-  intros s. apply exits_of_ended.
-  - apply Inv_run, Inv_init.
-  - subst s. unfold run. rewrite !fold_left_app. apply ended_run. cbn [fold_left sched_step].
-    apply end_action_ends.
+  intros (_ & _ & _ & Hk & Hr & _) Hp. unfold released, lock_is_recv, recv_inside in *. rewrite Hp in *.
+  rewrite Hr. destruct (lock s); try discriminate; repeat split; discriminate.
+Qed.
+
+Lemma loop_terminates sc k more fin :
+  let s := run repaired (sc ++ [Some (end_action k)] ++ more) init in
+  let s' := run repaired fin s in
+  forallb silent fin = true -> (fuel_of s <= turns repaired fin s)%nat ->
+  pcs s' = Exited /\ released s' = true.
+Proof.
+  intros s s' Hf Ht.
+  assert (HI : Inv s') by (apply Inv_run, Inv_run, Inv_init).
+  assert (Hp : pcs s' = Exited).
+  { apply exited_of_settled; [exact HI| |apply settles; [exact Hf|unfold fuel_of in Ht; lia]].
+    apply ended_run. subst s. unfold run. rewrite !fold_left_app. apply ended_run. cbn [fold_left sched_step].
+    apply end_action_ends. }
+  split; [exact Hp|]. apply released_of_exited; assumption.
+Qed.
+
+Lemma loop_exited_if_settled sc k more :
+  let s := run repaired (sc ++ [Some (end_action k)] ++ more) init in
+  settled repaired s = true -> pcs s = Exited.
+Proof.
+  intros s. apply exited_of_settled; [apply Inv_run, Inv_init|].
+  subst s. unfold run. rewrite !fold_left_app. apply ended_run. cbn [fold_left sched_step]. apply end_action_ends.
+Qed.
+
+Lemma loop_release sc :
+  let s := run repaired sc init in
+  (pcs s = Exited -> released s = true /\ refs s = 1%nat /\ lock s <> HeldByRecv /\
+                     (lock s = Free \/ lock (env_step GuiUnlock s) = Free)) /\
+  (pcs s <> Exited -> released s = false /\ refs s = 2%nat).
+Proof.
+  intros s. assert (HI : Inv s) by (apply Inv_run, Inv_init). split.
+  - intros Hp. destruct (released_of_exited s HI Hp) as (A & B & C). repeat split; auto.
+    unfold env_step, gui_holds, set_lock, set_lock_pc. destruct (lock s) eqn:E; auto. exfalso. apply C; reflexivity.
+  - intros Hp. destruct HI as (_ & _ & _ & _ & Hr & _). unfold released. rewrite Hr.
+    destruct (pcs s); try (split; reflexivity). exfalso; apply Hp; reflexivity.
+Qed.
+
+(* ------------------------------------------------------------------ the mutex *)
+
+Lemma loop_mutex_exclusion sc :
+  let s := run repaired sc init in
+  (recv_inside s = true <-> lock s = HeldByRecv) /\
+  ~ (recv_inside s = true /\ gui_holds s = true) /\
+  (* the GUI's accesses to the client (the only actions that change the outbound side) happen outside the
+     thread's critical section *)
+  (forall a, outb (env_step a s) <> outb s \/ wshut (env_step a s) <> wshut s ->
+             gui_holds s = true /\ recv_inside s = false).
+Proof.
+  intros s. assert (HI : Inv s) by (apply Inv_run, Inv_init).
+  destruct HI as (_ & _ & _ & Hk & _). unfold lock_is_recv, gui_holds in *.
+  split; [|split].
+  - rewrite <- Hk. destruct (lock s); split; intros H; try discriminate; reflexivity.
+  - intros (A & B). rewrite <- Hk in A. destruct (lock s); discriminate.
+  - intros a Ha.
+    assert (Hg : match lock s with HeldByGui => true | _ => false end = true).
+    { revert Ha. generalize s. intros t. dst t. unfold env_step, gui_put, lock_free, gui_holds, set_lock, set_lock_pc. fld.
+      destruct a as [r|k| | |n| |]; try (destruct cl as [?|]; try destruct k); fld;
+        try (intros [H|H]; exfalso; apply H; reflexivity);
+        destruct lk; fld; try (intros [H|H]; exfalso; apply H; reflexivity); reflexivity. }
+    split; [exact Hg|]. rewrite <- Hk. destruct (lock s); try discriminate; reflexivity.
+Qed.
+
+(* who waits for whom *)
+Definition waits_for_server (s : st) : Prop :=
+  (pcs s = AtWait /\ sock s = [] /\ closed s = None) \/
+  (pcs s = AtRead /\ tls s = [] /\ sock s = [] /\ closed s = None).
+
+Lemma loop_no_deadlock sc :
+  let s := run repaired sc init in
+  (* the receive thread: can step, or is gone, or waits for the server, or waits for a mutex that the GUI holds
+     and can release at once -- after which the thread can step *)
+  (tstep repaired s <> None \/ pcs s = Exited \/ waits_for_server s \/
+   (pcs s = AtLock /\ lock s = HeldByGui /\ tstep repaired (env_step GuiUnlock s) <> None)) /\
+  (* the GUI thread: its lock() can block only on a mutex held by the receive thread, which then can step or
+     waits for the server in the middle of a PDU *)
+  (lock s <> Free -> lock s <> HeldByGui ->
+   recv_inside s = true /\ (tstep repaired s <> None \/ (pcs s = AtRead /\ tls s = [] /\ sock s = [] /\ closed s = None))) /\
+  (* never both waiting for the mutex *)
+  (lock s = Free -> pcs s = AtLock -> tstep repaired s <> None).
+Proof.
+  intros s. assert (HI : Inv s) by (apply Inv_run, Inv_init).
+  pose proof HI as (_ & _ & _ & Hk & _). unfold lock_is_recv, recv_inside in Hk.
+  split; [|split].
+  - destruct (tstep repaired s) as [s1|] eqn:E; [left; discriminate|right].
+    destruct (quiet_cases s E) as [H|[H|[H|(Hp & Hl)]]]; auto.
+    + right. left. left. exact H.
+    + right. left. right. exact H.
+    + right. right. split; [exact Hp|]. rewrite Hp in Hk.
+      destruct (lock s) eqn:El; try discriminate; [exfalso; apply Hl; reflexivity|].
+      split; [reflexivity|].
+      revert Hp El. generalize s. intros t. dst t. unfold tstep, env_step, gui_holds, lock_free, set_lock, set_lock_pc. fld.
+      intros -> ->. cbn. discriminate.
+  - intros H1 H2. destruct (lock s) eqn:El; try (exfalso; auto; fail).
+    split; [symmetry; exact Hk|].
+    destruct (tstep repaired s) as [s1|] eqn:E; [left; discriminate|right].
+    destruct (quiet_cases s E) as [H|[(H & _)|[H|(H & _)]]]; auto; rewrite H in Hk; discriminate.
+  - intros Hl Hp. revert Hl Hp. generalize s. intros t. dst t. unfold tstep, lock_free. fld.
+    intros -> ->. discriminate.
+Qed.
+
+(* ------------------------------------------------------------------ GUI writes do not disturb the receive side *)
+
+Definition erase_writes (sc : list (option action)) : list (option action) :=
+  filter (fun x => negb (is_gui_write x)) sc.
+
+Lemma view_sched v s s' x :
+  recv_view s = recv_view s' -> recv_view (sched_step v s x) = recv_view (sched_step v s' x).
+Proof.
+  dst s. destruct s' as [sk' cl' tl' sy' p' o' lk' rf' ob' ws' h' c' l'].
+  unfold recv_view. fld. intros H. injection H as -> -> -> -> -> -> -> -> -> -> ->.
+  destruct x as [a|]; cbn [sched_step].
+  - unfold env_step, gui_put, lock_free, gui_holds, set_lock, set_lock_pc. fld.
+    destruct a as [r|k| | |n| |]; try (destruct cl' as [?|]; try destruct k); fld; try reflexivity;
+      destruct lk'; fld; try reflexivity; destruct ws, ws'; fld; reflexivity.
+  - unfold tstep, lock_free, set_pc, set_lock_pc, set_read. fld.
+    destruct p'; fld; try reflexivity.
+    + destruct (is_nil sk' && match cl' with None => true | Some _ => false end); reflexivity.
+    + destruct lk'; reflexivity.
+    + destruct tl' as [|[|[e|c0]] rest]; fld; try reflexivity.
+      destruct sk'; fld; [|reflexivity]. destruct cl'; reflexivity.
+Qed.
+
+Lemma view_write v s x : is_gui_write x = true -> recv_view (sched_step v s x) = recv_view s.
+Proof.
+  dst s. destruct x as [[r|k| | |n| |]|]; cbn [is_gui_write]; try discriminate; intros _;
+    cbn [sched_step env_step]; unfold gui_put, gui_holds, recv_view; fld;
+    destruct lk, ws, cl; reflexivity.
+Qed.
+
+Lemma view_run v sc : forall s s',
+  recv_view s = recv_view s' -> recv_view (run v sc s) = recv_view (run v (erase_writes sc) s').
+Proof.
+  unfold run. induction sc as [|x r IH]; intros s s' H; cbn [fold_left erase_writes filter]; [exact H|].
+  destruct (is_gui_write x) eqn:E; cbn [negb].
+  - apply IH. rewrite view_write by exact E. exact H.
+  - cbn [fold_left]. apply IH. apply view_sched. exact H.
+Qed.
+
+Lemma loop_gui_writes sc :
+  recv_view (run repaired sc init) = recv_view (run repaired (erase_writes sc) init) /\
+  out (run repaired sc init) = out (run repaired (erase_writes sc) init) /\
+  pcs (run repaired sc init) = pcs (run repaired (erase_writes sc) init).
+Proof.
+  pose proof (view_run repaired sc init init eq_refl) as H. split; [exact H|].
+  unfold recv_view in H. injection H. intros. auto.
+Qed.
+
+(* ------------------------------------------------------------------ the GUI stops the thread *)
+
+(* `sync` is cleared and the thread is outside its lock cycle: it will not read again *)
+Definition stopping (s : st) : bool :=
+  negb (sync s) && match pcs s with AtWait | AtSync | AtRet | Exited => true | _ => false end.
+
+Definition readable (s : st) : bool := negb (is_nil (sock s)) || negb (conn_open s).
+
+Lemma stopping_sched s x :
+  stopping s = true ->
+  stopping (sched_step repaired s x) = true /\ out (sched_step repaired s x) = out s /\
+  (readable s = true -> readable (sched_step repaired s x) = true).
+Proof.
+  dst s. unfold stopping, readable, conn_open. fld. intros H. apply andb_prop in H. destruct H as (Hsy & Hp).
+  destruct sy; [discriminate|]. clear Hsy.
+  destruct x as [a|]; cbn [sched_step].
+  - unfold env_step, gui_put, lock_free, gui_holds, set_lock, set_lock_pc. fld.
+    destruct a as [r|k| | |n| |]; try (destruct cl as [?|]; try destruct k); fld;
+      try (destruct lk; fld; try (destruct ws; fld)); repeat split; auto;
+      destruct sk; cbn; auto.
+  - unfold tstep, lock_free, set_pc, set_lock_pc, set_read. fld.
+    destruct p; try discriminate; fld; auto.
+    destruct (is_nil sk && match cl with None => true | Some _ => false end); fld; auto.
+Qed.
+
+Lemma stopping_run more : forall s,
+  stopping s = true ->
+  stopping (run repaired more s) = true /\ out (run repaired more s) = out s /\
+  (readable s = true -> readable (run repaired more s) = true).
+Proof.
+  unfold run. induction more as [|x r IH]; intros s H; cbn [fold_left]; [auto|].
+  destruct (stopping_sched s x H) as (A & B & C). destruct (IH _ A) as (A' & B' & C').
+  split; [exact A'|]. split; [congruence|auto].
+Qed.
+
+(* After GuiStop, with the thread in (or on its way back to) select: whatever happens next -- server traffic of
+   any kind included -- nothing more is forwarded; and once the socket is readable (traffic, or the end of the
+   connection) a fair silent schedule takes the thread to its exit and the client is released. *)
+Lemma loop_stop_by_gui sc more fin :
+  let s := run repaired sc init in
+  let s1 := run repaired more s in
+  let s2 := run repaired fin s1 in
+  stopping s = true ->
+  out s2 = out s /\
+  (readable s1 = true -> forallb silent fin = true -> (fuel_of s1 <= turns repaired fin s1)%nat ->
+   pcs s2 = Exited /\ released s2 = true).
+Proof.
+  intros s s1 s2 Hst.
+  destruct (stopping_run more s Hst) as (A1 & B1 & _). fold s1 in A1, B1.
+  destruct (stopping_run fin s1 A1) as (A2 & B2 & C2). fold s2 in A2, B2, C2.
+  split; [congruence|]. intros Hr Hf Ht.
+  assert (HI : Inv s2) by (apply Inv_run, Inv_run, Inv_run, Inv_init).
+  assert (Hs : settled repaired s2 = true) by (apply settles; [exact Hf|unfold fuel_of in Ht; lia]).
+  assert (Hp : pcs s2 = Exited).
+  { destruct (settled_cases s2 HI Hs) as [Hp|[(Hp & Hk & Hcl)|(Hp & _)]]; [exact Hp| |].
+    - specialize (C2 Hr). unfold readable, conn_open in C2. rewrite Hk, Hcl in C2. discriminate.
+    - unfold stopping in A2. rewrite Hp in A2. rewrite andb_false_r in A2. discriminate. }
+  split; [exact Hp|]. apply released_of_exited; assumption.
+Qed.
+
+(* From ANY moment of the cycle: once `sync` is cleared a fair silent schedule takes the thread to its exit or
+   to a wait for the server (select on an empty open socket, or the rest of a half-received PDU) *)
+Lemma loop_stop_settles sc fin :
+  let s := run repaired sc init in
+  let s' := run repaired fin s in
+  forallb silent fin = true -> (fuel_of s <= turns repaired fin s)%nat ->
+  pcs s' = Exited \/ waits_for_server s'.
+Proof.
+  intros s s' Hf Ht.
+  assert (HI : Inv s') by (apply Inv_run, Inv_run, Inv_init).
+  assert (Hs : settled repaired s' = true) by (apply settles; [exact Hf|unfold fuel_of in Ht; lia]).
+  destruct (settled_cases s' HI Hs) as [H|[H|H]]; [left; exact H|right; left; exact H|right; right; exact H].
+Qed.
+
+(* ... and a wait in select on an empty, open socket is not ended by anything the GUI does: not by clearing
+   `sync`, not by its final shutdown() (ultimatum + close_notify go OUT; nothing comes in).  The thread is
+   woken only by the server. *)
+Lemma select_needs_server fin : forall s,
+  pcs s = AtWait -> sock s = [] -> closed s = None -> forallb silent fin = true ->
+  pcs (run repaired fin s) = AtWait /\ refs (run repaired fin s) = refs s /\ out (run repaired fin s) = out s.
+Proof.
+  unfold run. induction fin as [|x r IH]; intros s Hp Hk Hc Hf; cbn [fold_left]; [auto|].
+  cbn [forallb] in Hf. apply andb_prop in Hf. destruct Hf as (Hx & Hr).
+  assert (H : pcs (sched_step repaired s x) = AtWait /\ sock (sched_step repaired s x) = [] /\
+              closed (sched_step repaired s x) = None /\ refs (sched_step repaired s x) = refs s /\
+              out (sched_step repaired s x) = out s).
+  { destruct x as [a|]; cbn [sched_step].
+    - destruct (gui_frame a s Hx) as (A & B & _ & D & E & _ & _ & _ & F). rewrite A, B, D, E, F. auto.
+    - unfold tstep. rewrite Hp, Hk, Hc. cbn. auto. }
+  destruct H as (A & B & C & D & E). destruct (IH _ A B C Hr) as (A' & B' & C').
+  split; [exact A'|]. split; congruence.
+Qed.
+
+Definition stop_sched : list (option action) := [Some GuiStop; Some GuiLock; Some GuiShutdown; Some GuiUnlock].
+
+Lemma stop_needs_wakeup fin :
+  forallb silent fin = true ->
+  let s := run repaired (stop_sched ++ fin) init in
+  pcs s = AtWait /\ refs s = 2%nat /\ released s = false /\ sync s = false /\
+  outb s = [WUltimatum; WCloseNotify].
+Proof.
+  intros Hf s. subst s. unfold run. rewrite fold_left_app.
+  set (s0 := fold_left (sched_step repaired) stop_sched init).
+  destruct (select_needs_server fin s0 eq_refl eq_refl eq_refl Hf) as (A & B & _).
+  fold (run repaired fin s0) in *.
+  split; [exact A|]. split; [rewrite B; reflexivity|]. split; [unfold released; rewrite A; reflexivity|].
+  assert (G : forall fin s, forallb silent fin = true -> sync s = false -> wshut s = true ->
+              sync (run repaired fin s) = false /\ outb (run repaired fin s) = outb s).
+  { clear. unfold run. induction fin as [|x r IH]; intros s Hf Hsy Hw; cbn [fold_left]; [auto|].
+    cbn [forallb] in Hf. apply andb_prop in Hf. destruct Hf as (Hx & Hr).
+    assert (H : sync (sched_step repaired s x) = false /\ wshut (sched_step repaired s x) = true /\
+                outb (sched_step repaired s x) = outb s).
+    { destruct x as [a|]; cbn [sched_step].
+      - revert Hsy Hw. dst s. fld. intros -> ->.
+        unfold env_step, gui_put, lock_free, gui_holds, set_lock, set_lock_pc. fld.
+        destruct a as [r0|k| | |n| |]; cbn [silent] in Hx; try discriminate; fld; auto;
+          destruct lk; fld; auto.
+      - destruct (tstep repaired s) as [s1|] eqn:E; [|auto]. apply tstep_frame in E.
+        destruct E as (_ & _ & C & D & F). rewrite C, D, F. auto. }
+    destruct H as (A & B & C). destruct (IH _ Hr A B) as (A' & B'). split; congruence. }
+  destruct (G fin s0 Hf eq_refl eq_refl) as (G1 & G2). rewrite G1, G2. split; reflexivity.
+Qed.
+
+(* ------------------------------------------------------------------ the fairness hypothesis: satisfiable, and needed *)
+
+(* a concrete shape of fair schedules: rounds, each made of any GUI activity that ends by releasing the mutex,
+   followed by one turn of the thread ("every lock acquisition is followed by its unlock before the thread's turn") *)
+Definition round (g : list action) : list (option action) := map Some g ++ [Some GuiUnlock; None].
+
+Lemma turns_app v a : forall b s, turns v (a ++ b) s = (turns v a s + turns v b (run v a s))%nat.
+Proof.
+  unfold run. induction a as [|x r IH]; intros b s; cbn [app turns fold_left]; [reflexivity|].
+  rewrite IH. lia.
+Qed.
+
+Lemma turns_round v g s : (1 <= turns v (round g) s)%nat.
+Proof.
+  unfold round. rewrite turns_app. cbn [turns sched_step].
+  set (s1 := run v (map Some g) s).
+  assert (H : mutex_blocked (env_step GuiUnlock s1) = false).
+  { generalize s1. intros t. dst t. unfold mutex_blocked, env_step, gui_holds, set_lock, set_lock_pc. fld.
+    destruct lk; fld; destruct p; reflexivity. }
+  rewrite H. lia.
+Qed.
+
+Lemma turns_rounds v gs : forall s, (length gs <= turns v (concat (map round gs)) s)%nat.
+Proof.
+  induction gs as [|g r IH]; intros s; cbn [map concat length]; [lia|].
+  rewrite turns_app. pose proof (turns_round v g s). specialize (IH (run v (round g) s)). lia.
+Qed.
+
+Lemma silent_rounds gs :
+  Forall (fun g => forallb (fun a => silent (Some a)) g = true) gs -> forallb silent (concat (map round gs)) = true.
+Proof.
+  induction 1 as [|g r Hg _ IH]; [reflexivity|]. cbn [map concat]. rewrite forallb_app, IH, andb_true_r.
+  unfold round. rewrite forallb_app. cbn. rewrite andb_true_r.
+  clear -Hg. induction g as [|a g IH]; [reflexivity|]. cbn in *. apply andb_prop in Hg. destruct Hg as (A & B).
+  rewrite A, IH by exact B. reflexivity.
+Qed.
+
+Lemma loop_terminates_rounds sc k more gs :
+  let s := run repaired (sc ++ [Some (end_action k)] ++ more) init in
+  Forall (fun g => forallb (fun a => silent (Some a)) g = true) gs -> (fuel_of s <= length gs)%nat ->
+  pcs (run repaired (concat (map round gs)) s) = Exited /\ released (run repaired (concat (map round gs)) s) = true.
+Proof.
+  intros s Hg Hn. apply loop_terminates; [apply silent_rounds; exact Hg|].
+  pose proof (turns_rounds repaired gs s). fold s. lia.
+Qed.
+
+(* NEEDED (1): a GUI that takes the mutex and never releases it keeps the thread from ever reading again -- whatever
+   the server sends, however the session ends, however many turns the thread gets *)
+Definition before_lock (p : pc) : bool := match p with AtWait | AtSync | AtLock => true | _ => false end.
+Definition keeps_holding (x : option action) : Prop := x <> Some GuiUnlock /\ x <> Some GuiStop.
+
+Lemma held_forever fin : forall s,
+  lock s = HeldByGui -> sync s = true -> before_lock (pcs s) = true ->
+  Forall keeps_holding fin ->
+  let s' := run repaired fin s in
+  lock s' = HeldByGui /\ sync s' = true /\ before_lock (pcs s') = true /\ out s' = out s.
+Proof.
+  unfold run. induction fin as [|x r IH]; intros s Hl Hsy Hp Hf; cbn [fold_left]; [auto|].
+  inversion Hf as [|? ? (Hx & Hx') Hr]; subst.
+  assert (H : lock (sched_step repaired s x) = HeldByGui /\ sync (sched_step repaired s x) = true /\
+              before_lock (pcs (sched_step repaired s x)) = true /\ out (sched_step repaired s x) = out s).
+  { revert Hl Hsy Hp. dst s. fld. intros -> -> Hp.
+    destruct x as [a|]; cbn [sched_step].
+    - unfold env_step, gui_put, lock_free, gui_holds, set_lock, set_lock_pc. fld.
+      destruct a as [r0|k| | |n| |]; try (exfalso; apply Hx; reflexivity); try (exfalso; apply Hx'; reflexivity);
+        try (destruct cl as [?|]; try destruct k); fld; try (destruct ws; fld); auto.
+    - unfold tstep, lock_free, set_pc, set_lock_pc, set_read. fld.
+      destruct p; try discriminate; fld; auto.
+      destruct (is_nil sk && match cl with None => true | Some _ => false end); fld; auto. }
+  destruct H as (A & B & C & D). destruct (IH _ A B C Hr) as (A' & B' & C' & D').
+  repeat split; auto. congruence.
+Qed.
+
+Lemma fairness_needed_hold k fin :
+  Forall keeps_holding fin ->
+  let s := run repaired ([Some GuiLock; Some (Send [Fin (PEvents [1])]); Some (end_action k)] ++ fin) init in
+  pcs s <> Exited /\ out s = [] /\ released s = false.
+Proof.
+  intros Hf s. subst s. unfold run. rewrite fold_left_app.
+  set (s0 := fold_left (sched_step repaired) [Some GuiLock; Some (Send [Fin (PEvents [1])]); Some (end_action k)] init).
+  assert (H0 : lock s0 = HeldByGui /\ sync s0 = true /\ pcs s0 = AtWait /\ out s0 = []) by (destruct k as [|c|[]]; repeat split; reflexivity).
+  destruct H0 as (A & A' & B & C).
+  destruct (held_forever fin s0 A A') as (_ & _ & P & O); [rewrite B; reflexivity|exact Hf|].
+  fold (run repaired fin s0) in *.
+  assert (Hp : pcs (run repaired fin s0) <> Exited) by (intros E; rewrite E in P; discriminate).
+  split; [exact Hp|]. split; [congruence|].
+  unfold released. destruct (pcs (run repaired fin s0)); try reflexivity. exfalso; apply Hp; reflexivity.
+Qed.
+
+(* NEEDED (2): it is not enough that the GUI releases the mutex again and again; the thread must get a turn while
+   the mutex is free.  A GUI that unlocks and locks again between any two turns of the thread starves it. *)
+Definition starve_round : list (option action) := [Some GuiUnlock; Some GuiLock; None].
+
+Lemma starved n : forall s0,
+  pcs s0 = AtLock -> lock s0 = HeldByGui ->
+  let s := run repaired (concat (repeat starve_round n)) s0 in
+  pcs s = AtLock /\ lock s = HeldByGui /\ turns repaired (concat (repeat starve_round n)) s0 = O.
+Proof.
+  induction n as [|m IH]; intros s0 A B; cbn [repeat concat]; [cbn; auto|].
+  unfold run. rewrite fold_left_app. rewrite turns_app.
+  assert (H1 : run repaired starve_round s0 = s0 /\ turns repaired starve_round s0 = O).
+  { revert A B. dst s0. fld. intros -> ->. split; reflexivity. }
+  destruct H1 as (E1 & E2). fold (run repaired starve_round s0). rewrite E1, E2.
+  apply IH; assumption.
+Qed.
+
+Lemma fairness_needed_starve k n :
+  let s0 := run repaired [Some GuiLock; Some (end_action k); None; None] init in
+  let s := run repaired (concat (repeat starve_round n)) s0 in
+  pcs s = AtLock /\ lock s = HeldByGui /\ released s = false /\ turns repaired (concat (repeat starve_round n)) s0 = O.
+Proof.
+  intros s0 s.
+  assert (H0 : pcs s0 = AtLock /\ lock s0 = HeldByGui) by (destruct k as [|c|[]]; split; reflexivity).
+  destruct H0 as (A & B). destruct (starved n s0 A B) as (P & L & T). fold s in P, L.
+  repeat split; auto. unfold released. rewrite P. reflexivity.
 Qed.
 
 (* ------------------------------------------------------------------ the loop as found (witnesses) *)
@@ -348,15 +954,25 @@ Lemma original_spins : forall fuel, exists s, quiesce original fuel dead = RSpin
 Proof.
   assert (H : forall fuel,
              (exists s, quiesce original fuel dead = RSpin s) /\
+             (exists s, quiesce original fuel (set_pc dead AtSync) = RSpin s) /\
              (exists s, quiesce original fuel (set_pc dead AtLock) = RSpin s) /\
-             (exists s, quiesce original fuel (set_pc dead AtRead) = RSpin s)).
-  { induction fuel as [|f (H0 & H1 & H2)]; [repeat split; eexists; reflexivity|].
+             (exists s, quiesce original fuel (set_lock_pc dead HeldByRecv AtRead) = RSpin s) /\
+             (exists s, quiesce original fuel (set_lock_pc dead HeldByRecv AtUnlock) = RSpin s)).
+  { induction fuel as [|f (H0 & H1 & H2 & H3 & H4)]; [repeat split; eexists; reflexivity|].
     repeat split.
     - destruct H1 as (s & H1). exists s. exact H1.
     - destruct H2 as (s & H2). exists s. exact H2.
+    - destruct H3 as (s & H3). exists s. exact H3.
+    - destruct H4 as (s & H4). exists s. exact H4.
     - destruct H0 as (s & H0). exists s. exact H0. }
   intros fuel. apply H.
 Qed.
+
+(* ... taking the client mutex in turns: it is held at two of the five program points of every iteration *)
+Lemma original_spins_with_mutex :
+  lock (set_lock_pc dead HeldByRecv AtRead) = HeldByRecv /\
+  tstep original (set_pc dead AtLock) = Some (set_lock_pc dead HeldByRecv AtRead).
+Proof. split; reflexivity. Qed.
 
 (* two PDUs in one TLS record: the original loop reads one, goes back to select and waits for
    MORE traffic with the second PDU (here: even a disconnect ultimatum) sitting in the TLS buffer *)
@@ -365,20 +981,67 @@ Definition coalesced : st := env_step (Send [Fin (PEvents [1]); Fin (PEvents [2]
 Lemma original_stalls :
   exists s', quiesce original (fuel_of coalesced) coalesced = RQuiet s' /\
              pcs s' = AtWait /\ out s' = [1] /\ tls s' = [Fin (PEvents [2]); Fin (PFail ERdp)] /\
-             sock s' = [] /\ closed s' = None.
+             sock s' = [] /\ closed s' = None /\ lock s' = Free.
 Proof. eexists. split; [vm_compute; reflexivity|]. repeat split. Qed.
 
 Lemma repaired_on_witnesses :
-  (exists s', quiesce repaired (fuel_of dead) dead = RQuiet s' /\ pcs s' = Exited) /\
-  (exists s', quiesce repaired (fuel_of coalesced) coalesced = RQuiet s' /\ pcs s' = Exited /\ out s' = [1; 2]).
+  (exists s', quiesce repaired (fuel_of dead) dead = RQuiet s' /\ pcs s' = Exited /\ released s' = true) /\
+  (exists s', quiesce repaired (fuel_of coalesced) coalesced = RQuiet s' /\ pcs s' = Exited /\ out s' = [1; 2] /\ released s' = true).
 Proof. split; eexists; (split; [vm_compute; reflexivity|]); repeat split. Qed.
 
-(* a packing that splits and coalesces at once, scheduled with thread steps in between *)
+(* ------------------------------------------------------------------ non-vacuity *)
+
+(* a packing that splits and coalesces at once, scheduled with thread steps in between, WHILE the GUI takes the
+   mutex, writes input and releases it at awkward moments (data arriving while it holds the mutex; the session
+   ending while it holds the mutex), and then a fair silent tail of lock/write/unlock rounds *)
 Definition ex_sched : list (option action) :=
-  [Some (Send [Frag]); None; None; None; Some (Send [Fin (PEvents [7]); Frag]); None;
-   Some (Send [Frag; Fin (PEvents [8; 9]); Fin (PEvents [])]); None; Some (Close AbruptFin)].
+  [Some (Send [Frag]); None; None; None; None; None;             (* the thread sits in a read, half a PDU, mutex held *)
+   Some GuiLock;                                                  (* the GUI's lock() blocks *)
+   Some (Send [Fin (PEvents [7])]); None; None; None;             (* rest of the PDU: event 7, mutex released *)
+   Some GuiLock; Some (GuiWrite 1);                               (* now the GUI gets it *)
+   Some (Send [Frag; Fin (PEvents [8; 9]); Fin (PEvents [])]);    (* data arrives while the GUI holds the mutex *)
+   None; None; None;                                              (* the thread wakes up and blocks in lock() *)
+   Some (GuiWrite 2); Some (Close AbruptFin); None].              (* the session ends while the GUI holds the mutex *)
+
+Definition ex_tail : list (option action) :=
+  concat (map round (repeat [GuiLock; GuiWrite 3] 40)).
 
 Lemma ex_run :
-  exists s', quiesce repaired (fuel_of (run repaired ex_sched init)) (run repaired ex_sched init) = RQuiet s' /\
-             pcs s' = Exited /\ out s' = [7; 8; 9] /\ evs_of (hist s') = [7; 8; 9].
-Proof. eexists. split; [vm_compute; reflexivity|]. repeat split. Qed.
+  let s := run repaired ex_sched init in
+  let s' := run repaired ex_tail s in
+  forallb silent ex_tail = true /\ (fuel_of s <= turns repaired ex_tail s)%nat /\
+  pcs s = AtLock /\ lock s = HeldByGui /\ out s = [7] /\
+  pcs s' = Exited /\ out s' = [7; 8; 9] /\ evs_of (hist s') = [7; 8; 9] /\ released s' = true /\
+  outb s' = [WInput 1; WInput 2].
+Proof. vm_compute. repeat split; try reflexivity. repeat constructor. Qed.
+
+(* the GUI stops the session as main_gui_loop does; the server answers by closing the connection *)
+Definition ex_stop : list (option action) :=
+  [Some (Send [Fin (PEvents [5])]); None; None; None; None; None; None] ++ stop_sched ++
+  [None; None; Some (Close CloseNotify)].
+
+Lemma ex_stop_run :
+  let s1 := run repaired ex_stop init in
+  let s2 := run repaired (repeat None 10) s1 in
+  stopping (run repaired ([Some (Send [Fin (PEvents [5])]); None; None; None; None; None; None] ++ [Some GuiStop]) init) = true /\
+  readable s1 = true /\ (fuel_of s1 <= turns repaired (repeat None 10) s1)%nat /\
+  pcs s2 = Exited /\ released s2 = true /\ out s2 = [5] /\ outb s2 = [WUltimatum; WCloseNotify].
+Proof. vm_compute. repeat split; try reflexivity. repeat constructor. Qed.
+
+(* ------------------------------------------------------------------ statements as exported *)
+
+Lemma loop_never_spins_full sc fin :
+  forallb silent fin = true ->
+  (moves repaired fin (run repaired sc init) <= measure (run repaired sc init))%nat /\
+  exists s', quiesce repaired (fuel_of (run repaired sc init)) (run repaired sc init) = RQuiet s'.
+Proof. intros H. exact (conj (loop_never_spins sc fin H) (loop_comes_to_rest sc)). Qed.
+
+Lemma loop_fair_rounds sc k more gs :
+  let s := run repaired (sc ++ [Some (end_action k)] ++ more) init in
+  Forall (fun g => forallb (fun a => silent (Some a)) g = true) gs -> (fuel_of s <= length gs)%nat ->
+  (length gs <= turns repaired (concat (map round gs)) s)%nat /\
+  pcs (run repaired (concat (map round gs)) s) = Exited /\
+  released (run repaired (concat (map round gs)) s) = true.
+Proof.
+  intros s Hg Hn. exact (conj (turns_rounds repaired gs s) (loop_terminates_rounds sc k more gs Hg Hn)).
+Qed.
